@@ -29,8 +29,9 @@ EXTENDS Naturals, Sequences, FiniteSets, TLC, Json
 
 CONSTANTS MaxDev,     \* number of fields that may deviate from the baseline at once
           NamesSet,   \* subset of {"utf8", "legacy"}: parser.names / model.NameValidationScheme
+          SchemaSet,  \* subset of {"prometheus", "thanos"}: parser.schema (the property is claimed for prometheus only)
           CoreOnly,   \* BOOLEAN: the last deviation (the MaxDev-th) is restricted to the core fields
-          Gaps        \* subset of {"F9a","F9b","F9c","F9d","F9e"}: validations of rulefmt that the implementation
+          Gaps        \* subset of {"F9a","F9b","F9c","F9d","F9e","F9g"}: validations of rulefmt that the implementation
                       \* under test still lacks (open entries of known_findings.json; {} once all are repaired)
 
 -----------------------------------------------------------------------------
@@ -38,8 +39,9 @@ CONSTANTS MaxDev,     \* number of fields that may deviate from the baseline at 
 
 \* "null" is rendered as an empty value (key:), "nullWord" as the word null
 Scalar == {"absent", "ok", "empty", "int", "bool", "seq", "map", "null", "nullWord", "dup"}
+\* valBadUtf8: the value holds a raw 0xFF byte (not valid UTF-8): the YAML reader refuses the whole stream
 MapSt  == {"absent", "ok", "emptyMap", "null", "int", "str", "seq", "bool", "dup",
-           "valInt", "valBool", "valNull", "valSeq", "valMap", "dupInner",
+           "valInt", "valBool", "valNull", "valSeq", "valMap", "dupInner", "valBadUtf8",
            "badNameEmpty", "badNameDash", "nameLabel"}
 Item   == {"map", "null", "emptyMap", "str", "int", "seq"}
 
@@ -49,30 +51,45 @@ Item   == {"map", "null", "emptyMap", "str", "int", "seq"}
 \*   unclosedComment {{/* TODO              comment opened, never closed
 \*   unclosedBrace   {{ $value }            closing delimiter incomplete
 \*   execTemplate    {{ .Nope }}            parses, fails only when executed
-TemplateSt == {"badTemplate", "unclosedAction", "unclosedComment", "unclosedBrace", "execTemplate"}
+\*   tplUnknownFunc  {{ nofunc 1 }}         function not defined: a parse error
+\*   tplQueryBad     {{ query "sum(" }}     parses; pint's stub query function parses the PromQL and fails at expansion
+\*   tplPathPrefix   {{ pathPrefix }}       parses; fails when expanded outside a web handler
+\*   tplExternal     {{ $externalLabels.foo }} {{ $externalURL }}
+\*   tplQuery        {{ query "up" | first | value }}
+\*   tplArgs         {{ with args 1 2 }}{{ .arg0 }}{{ end }}
+TemplateSt == {"badTemplate", "unclosedAction", "unclosedComment", "unclosedBrace", "tplUnknownFunc",
+               "execTemplate", "tplQueryBad", "tplPathPrefix"}
+\* templates both sides are happy with
+TemplateOkSt == {"tplExternal", "tplQuery", "tplArgs"}
 \* text/template.Parse fails on these (both pint's ParseTest and rulefmt's testTemplateParsing see that)
-TemplateParseErr(st) == st \in {"badTemplate", "unclosedAction", "unclosedComment", "unclosedBrace"}
+TemplateParseErr(st) == st \in {"badTemplate", "unclosedAction", "unclosedComment", "unclosedBrace", "tplUnknownFunc"}
 
 GFields == {"name", "interval", "query_offset", "limit", "labels", "rules", "partial_response_strategy", "unknown"}
 RFields == {"record", "alert", "expr", "merge", "for", "keep_firing_for", "labels", "annotations", "unknown"}
 
+\* duration value classes: neg -1m, huge 99999999999y (out of range), float 1.5m, zero 0s, int0 the integer 0
+DurClasses == {"badDur", "neg", "huge", "float", "zero", "int0"}
 GDom(f) == CASE f = "name"         -> Scalar \cup {"dupOther"}
-             [] f = "interval"     -> Scalar \cup {"badDur"}
-             [] f = "query_offset" -> Scalar \cup {"badDur"}
-             \* quotedInt: a numeric string ("10") - a string for YAML, not an integer
-             [] f = "limit"        -> {"absent", "ok", "empty", "str", "quotedInt", "float", "neg", "bool", "seq", "map", "null", "dup"}
-             [] f = "labels"       -> MapSt
+             [] f = "interval"     -> Scalar \cup DurClasses
+             [] f = "query_offset" -> Scalar \cup DurClasses
+             \* quotedInt "10" (a string for YAML); zero 0; hex 0x10; exp 1e3 (a float for YAML);
+             \* u64 9223372036854775808 (an integer for YAML, too large for Go's int); huge 99999999999999999999 (a float)
+             [] f = "limit"        -> {"absent", "ok", "empty", "str", "quotedInt", "float", "neg", "bool", "seq", "map", "null", "dup",
+                                       "zero", "hex", "exp", "u64", "huge"}
+             [] f = "labels"       -> MapSt \cup TemplateSt \cup TemplateOkSt \cup {"valueTemplate"}
              [] f = "rules"        -> {"ok", "absent", "null", "emptyList", "int", "str", "map", "bool", "dup"}
-             [] f = "partial_response_strategy" -> {"absent", "ok"}
+             \* ok warn; badValue maybe; int 1; null
+             [] f = "partial_response_strategy" -> {"absent", "ok", "badValue", "int", "null"}
              [] f = "unknown"      -> {"absent", "present"}
 
-RDom(f) == CASE f = "record"          -> Scalar \cup {"braces", "space"}
-             [] f = "alert"           -> Scalar
+\* utf8: "job:üp" / "Über alert"; dot: job.up
+RDom(f) == CASE f = "record"          -> Scalar \cup {"braces", "space", "utf8", "dot"}
+             [] f = "alert"           -> Scalar \cup {"utf8"}
              [] f = "expr"            -> Scalar \cup {"badPromql"}
              [] f = "for"             -> Scalar \cup {"badDur", "zero"}
              [] f = "keep_firing_for" -> Scalar \cup {"badDur", "zero"}
-             [] f = "labels"          -> MapSt \cup TemplateSt \cup {"valueTemplate"}
-             [] f = "annotations"     -> MapSt \cup TemplateSt
+             [] f = "labels"          -> MapSt \cup TemplateSt \cup TemplateOkSt \cup {"valueTemplate"}
+             [] f = "annotations"     -> MapSt \cup TemplateSt \cup TemplateOkSt
              [] f = "unknown"         -> {"absent", "present"}
              \* a merge key with an inline mapping, written right after expr:  <<: {}   or   <<: {for: 1x}
              [] f = "merge"           -> {"absent", "inlineEmpty", "inlineFor"}
@@ -95,9 +112,13 @@ BaseR(kind) ==
   ELSE [record |-> "ok", alert |-> "absent", expr |-> "ok", merge |-> "absent", for |-> "absent", keep_firing_for |-> "absent",
         labels |-> "ok", annotations |-> "absent", unknown |-> "absent"]
 
-Baseline(kind, names, order) ==
-  [names |-> names, kind |-> kind, order |-> order, top |-> "ok", gitem |-> "map", ritem |-> "map",
-   g |-> BaseG, r |-> BaseR(kind)]
+\* g2: a second, valid group ("other", one valid rule) before / after the focus group
+\* r2: a second, valid rule before / after the focus rule in the focus group
+SiblingDom == {"absent", "before", "after"}
+
+Baseline(kind, names, order, schema) ==
+  [names |-> names, kind |-> kind, order |-> order, schema |-> schema, top |-> "ok", gitem |-> "map", ritem |-> "map",
+   g2 |-> "absent", r2 |-> "absent", g |-> BaseG, r |-> BaseR(kind)]
 
 \* file order of the group keys (schemadoc renders them in this order)
 GOrder(d) == IF d.order = "rulesFirst"
@@ -113,8 +134,10 @@ RFieldsRendered(d) == RuleRendered(d) /\ d.ritem = "map"
 
 \* deviations from the baseline, as strings "g.name=empty" (the signature of a document)
 Devs(d) ==
-  LET b == Baseline(d.kind, d.names, d.order) IN
+  LET b == Baseline(d.kind, d.names, d.order, d.schema) IN
   (IF d.top # b.top THEN {"top=" \o d.top} ELSE {})
+  \cup (IF d.g2 # b.g2 THEN {"g2=" \o d.g2} ELSE {})
+  \cup (IF d.r2 # b.r2 THEN {"r2=" \o d.r2} ELSE {})
   \cup (IF d.gitem # b.gitem THEN {"gitem=" \o d.gitem} ELSE {})
   \cup (IF d.ritem # b.ritem THEN {"ritem=" \o d.ritem} ELSE {})
   \cup {"g." \o f \o "=" \o d.g[f] : f \in {x \in GFields : d.g[x] # b.g[x]}}
@@ -122,8 +145,9 @@ Devs(d) ==
 
 \* fields that are not rendered stay at the baseline (no hidden deviations)
 Normal(d) ==
-  LET b == Baseline(d.kind, d.names, d.order) IN
-  /\ (~GroupRendered(d) => d.gitem = b.gitem)
+  LET b == Baseline(d.kind, d.names, d.order, d.schema) IN
+  /\ (~GroupRendered(d) => d.gitem = b.gitem /\ d.g2 = b.g2)
+  /\ (~RuleRendered(d) => d.r2 = b.r2)
   /\ (~GFieldsRendered(d) => d.g = b.g)
   /\ (~RuleRendered(d) => d.ritem = b.ritem)
   /\ (~RFieldsRendered(d) => d.r = b.r)
@@ -147,7 +171,7 @@ ValueEmpty(st) == st \in {"empty", "null"} \/ (st = "nullWord" /\ "F9e" \notin G
 
 \* model.LabelName.IsValid / IsValidMetricName under the configured scheme, per rendered text
 NameInvalid(st, names) == st = "badNameEmpty" \/ (st = "badNameDash" /\ names = "legacy")
-RecordNameInvalid(st, names) == names = "legacy" /\ st \in {"braces", "space", "int"}
+RecordNameInvalid(st, names) == names = "legacy" /\ st \in {"braces", "space", "int", "utf8", "dot"}
 
 \* validateStringMap: first entry whose value is not a string (null passes), or a repeated key
 StringMapErr(st) == CASE st \in {"valInt", "valBool", "valSeq", "valMap"} -> "valtype"
@@ -163,11 +187,14 @@ GKeyErr(d, k) ==
               ELSE IF st = "empty" THEN "group:name:empty"
               ELSE IF st = "dup" THEN "group:dup:name" ELSE "none"
          [] k \in {"interval", "query_offset"} ->
-              IF st \in {"int", "bool", "seq", "map", "null", "nullWord"} THEN "group:" \o k \o ":type"
-              ELSE IF st \in {"empty", "badDur"} THEN "group:" \o k \o ":value"
+              IF st \in {"int", "int0", "bool", "seq", "map", "null", "nullWord"} THEN "group:" \o k \o ":type"
+              \* model.ParseDuration: no sign, no fraction, must fit in int64 nanoseconds
+              ELSE IF st \in {"empty", "badDur", "neg", "huge", "float"} THEN "group:" \o k \o ":value"
               ELSE IF st = "dup" THEN "group:dup:" \o k ELSE "none"
          [] k = "limit" ->
-              IF st \in {"ok", "neg"} THEN "none"
+              \* only the !!int tag is looked at; F9g: the strconv error of an integer too large for int is dropped
+              IF st \in {"ok", "neg", "zero", "hex"} THEN "none"
+              ELSE IF st = "u64" /\ "F9g" \in Gaps THEN "none"
               ELSE IF st = "dup" THEN "group:dup:limit" ELSE "group:limit:type"
          [] k = "labels" ->
               \* entry.val.ShortTag() != mapTag : null does NOT pass here
@@ -180,7 +207,11 @@ GKeyErr(d, k) ==
          [] k = "rules" ->
               IF st \in {"int", "str", "map", "bool"} THEN "group:rules:type"
               ELSE IF st = "dup" THEN "group:dup:rules" ELSE "none"
-         [] k = "partial_response_strategy" -> "group:partial_response_strategy:schema"
+         [] k = "partial_response_strategy" ->
+              IF d.schema # "thanos" THEN "group:partial_response_strategy:schema"
+              ELSE IF st = "int" THEN "group:partial_response_strategy:type"          \* isTag(.., strTag): null passes
+              ELSE IF st \in {"badValue", "null"} THEN "group:partial_response_strategy:value"
+              ELSE "none"
          [] k = "unknown" -> "group:unknown"
 
 \* index of the first key that returns with an error (0 = none)
@@ -202,13 +233,22 @@ PintGroup(d) ==
   ELSE IF ~Present(d.g.name) /\ (Present(d.g.rules) \/ "F9c" \notin Gaps) THEN "group:noname"
   ELSE "none"
 
+\* group.Labels was assigned (the labels key was processed without an error of its own)
+GroupLabelsSet(d) == /\ d.gitem = "map" /\ Present(d.g.labels) /\ GKeyReached(d, "labels")
+                     /\ GKeyErr(d, "labels") \in {"none", "group:dup:labels"}
+
 \* group.Name as seen by parseGroups' duplicate-name map
 GroupNameSet(d) == d.gitem = "map" /\ d.g.name \in {"ok", "dupOther", "dup"} /\ GKeyReached(d, "name")
 \* the focus rule was appended to group.Rules
 RuleParsed(d) == d.gitem = "map" /\ d.g.rules \in {"ok", "dup"} /\ GKeyReached(d, "rules")
 
 \* --- parser.Parse + parseGroups: the file-level error (a PathError entry replacing everything else)
+\* a raw byte that is not UTF-8 anywhere in the stream: yaml.v3's reader fails on the first Decode
+RawBadUtf8(d) == \/ (GFieldsRendered(d) /\ d.g.labels = "valBadUtf8")
+                 \/ (RFieldsRendered(d) /\ (d.r.labels = "valBadUtf8" \/ d.r.annotations = "valBadUtf8"))
+
 PintFile(d) ==
+  IF RawBadUtf8(d) THEN "file:yaml" ELSE
   CASE d.top \in {"emptyFile", "commentOnly", "nullDoc", "groupsNull", "groupsEmpty"} -> "none"
     [] d.top \in {"seq", "scalarStr", "scalarInt"} -> "file:top:type"
     [] d.top \in {"groupsInt", "groupsStr", "groupsBool", "groupsMap"} -> "file:groups:type"
@@ -272,17 +312,30 @@ PintRule(d) ==
   ELSE "rule:incomplete"                       \* parseRule's isEmpty result (strict.go turns it into an error)
 
 \* --- the default offline checks that can reach severity >= Bug on a valid rule of this vocabulary
+\* discovery.Entry.Labels(): group labels merged with the rule's, the rule's entry wins for the same key.
+\* Every label map of the vocabulary uses the key "team", except the invalid-name ones and the empty maps.
+RuleHasTeam(st) == st \notin {"absent", "emptyMap", "null", "badNameEmpty", "badNameDash", "nameLabel"}
+GroupLabelSeen(d) == GroupLabelsSet(d) /\ ~RuleHasTeam(Eff(d.r).labels)
+
 PintChecks(d) ==
   LET r == Eff(d.r)
       alerting == Present(r.alert)
-      syntax == r.expr = "badPromql" IN
+      syntax == r.expr = "badPromql"
+      gl == IF GroupLabelSeen(d) THEN d.g.labels ELSE "ok" IN
   (IF syntax THEN {"check:syntax"} ELSE {})
   \* checkTemplateSyntax: ParseTest, then Expand - every text that fails to parse or to execute is Fatal
-  \cup (IF alerting /\ ~syntax /\ (r.labels \in TemplateSt \/ r.annotations \in TemplateSt)
+  \cup (IF alerting /\ ~syntax /\ (r.labels \in TemplateSt \/ r.annotations \in TemplateSt \/ gl \in TemplateSt)
         THEN {"check:template"} ELSE {})
-  \cup (IF alerting /\ ~syntax /\ r.labels = "valueTemplate" THEN {"check:template:value"} ELSE {})
+  \cup (IF alerting /\ ~syntax /\ (r.labels = "valueTemplate" \/ gl = "valueTemplate") THEN {"check:template:value"} ELSE {})
   \cup (IF alerting /\ (r.for \in {"badDur", "empty", "null", "nullWord"} \/ r.keep_firing_for \in {"badDur", "empty", "null", "nullWord"})
         THEN {"check:for"} ELSE {})
+
+\* the sibling rule (r2) is valid and has no labels of its own: an alerting sibling sees every group label
+SiblingChecks(d) ==
+  IF d.r2 # "absent" /\ d.kind = "alerting" /\ GroupLabelsSet(d)
+  THEN (IF d.g.labels \in TemplateSt THEN {"check:template"} ELSE {})
+       \cup (IF d.g.labels = "valueTemplate" THEN {"check:template:value"} ELSE {})
+  ELSE {}
 
 \* --- discovery.readRules + GetChecksForEntry: stage codes of every problem with severity >= Bug
 PintStages(d) ==
@@ -290,7 +343,7 @@ PintStages(d) ==
   ELSE IF ~GroupRendered(d) THEN {}
   ELSE (IF PintGroup(d) # "none" THEN {PintGroup(d)} ELSE {})
        \cup (IF RuleParsed(d)
-             THEN IF PintRule(d) = "valid" THEN PintChecks(d) ELSE {PintRule(d)}
+             THEN (IF PintRule(d) = "valid" THEN PintChecks(d) ELSE {PintRule(d)}) \cup SiblingChecks(d)
              ELSE {})
 
 PintClean(d) == PintStages(d) = {}
@@ -308,9 +361,9 @@ PintClean(d) == PintStages(d) = {}
 \* text a string field ends up with: "" or non-empty
 StrDecodes(st) == st \notin {"seq", "map", "dup"}
 StrNonEmpty(st) == st \notin {"absent", "empty", "null", "nullWord"}
-DurDecodes(st) == st \in {"absent", "ok", "null", "nullWord", "zero"}
+DurDecodes(st) == st \in {"absent", "ok", "null", "nullWord", "zero", "int0"}       \* the integer 0 is read as the text "0"
 DurNonZero(st) == st = "ok"
-MapDecodes(st) == st \notin {"int", "str", "seq", "bool", "dup", "valSeq", "valMap", "dupInner"}
+MapDecodes(st) == st \notin {"int", "str", "seq", "bool", "dup", "valSeq", "valMap", "dupInner", "valBadUtf8"}
 MapNonEmpty(st) == st \notin {"absent", "emptyMap", "null"}
 
 PromRuleOK(d) ==
@@ -349,7 +402,8 @@ PromGroupOK(d) ==
        /\ g.unknown = "absent" /\ g.partial_response_strategy = "absent"
        /\ StrDecodes(g.name)
        /\ DurDecodes(g.interval) /\ DurDecodes(g.query_offset)
-       /\ g.limit \in {"absent", "ok", "neg", "null", "float"}          \* yaml.v3 truncates a float into an int field
+       \* yaml.v3 truncates a float into an int field (1.5, 1e3) but refuses what does not fit (u64, huge)
+       /\ g.limit \in {"absent", "ok", "neg", "null", "float", "zero", "hex", "exp"}
        /\ MapDecodes(g.labels)
        /\ g.rules \in {"absent", "ok", "null", "emptyList"}
        \* RuleGroups.Validate
@@ -359,6 +413,7 @@ PromGroupOK(d) ==
        /\ (g.rules = "ok" => PromRuleOK(d))
 
 PromAccepts(d) ==
+  IF RawBadUtf8(d) THEN FALSE ELSE
   CASE d.top \in {"emptyFile", "commentOnly", "nullDoc", "groupsNull", "groupsEmpty"} -> TRUE
     [] d.top \in {"seq", "scalarStr", "scalarInt", "groupsInt", "groupsStr", "groupsBool", "groupsMap"} -> FALSE
     [] d.top \in {"unknownKey", "unknownKeyFirst", "nonStrKey", "dupGroupsEmpty", "dupGroupsOther"} -> FALSE
@@ -373,7 +428,7 @@ vars == <<doc, n>>
 Kinds == {"recording", "alerting"}
 Orders == {"rulesLast", "rulesFirst"}
 
-Init == /\ \E k \in Kinds, nm \in NamesSet, o \in Orders : doc = Baseline(k, nm, o)
+Init == /\ \E k \in Kinds, nm \in NamesSet, o \in Orders, sc \in SchemaSet : doc = Baseline(k, nm, o, sc)
         /\ n = 0
 
 \* fields around which the deepest level of deviation is concentrated
@@ -381,7 +436,7 @@ CoreG == {"name", "rules", "labels"}
 CoreR == {"record", "alert", "expr", "merge", "labels", "annotations"}
 Last == CoreOnly /\ n = MaxDev - 1
 
-Base == Baseline(doc.kind, doc.names, doc.order)
+Base == Baseline(doc.kind, doc.names, doc.order, doc.schema)
 
 \* one more field leaves the baseline; fields that are not rendered never deviate
 Deviate(d2) ==
@@ -394,6 +449,8 @@ Next ==
   \/ \E t \in TopDom \ {"ok"} : ~Last /\ doc.top = "ok" /\ Deviate([doc EXCEPT !.top = t])
   \/ \E s \in Item \ {"map"} : ~Last /\ doc.gitem = "map" /\ Deviate([doc EXCEPT !.gitem = s])
   \/ \E s \in Item \ {"map"} : ~Last /\ doc.ritem = "map" /\ Deviate([doc EXCEPT !.ritem = s])
+  \/ \E s \in SiblingDom \ {"absent"} : ~Last /\ doc.g2 = "absent" /\ Deviate([doc EXCEPT !.g2 = s])
+  \/ \E s \in SiblingDom \ {"absent"} : ~Last /\ doc.r2 = "absent" /\ Deviate([doc EXCEPT !.r2 = s])
   \/ \E f \in GFields : \E s \in GDom(f) \ {Base.g[f]} :
         (Last => f \in CoreG) /\ doc.g[f] = Base.g[f] /\ Deviate([doc EXCEPT !.g[f] = s])
   \/ \E f \in RFields : \E s \in RDom(f) \ {Base.r[f]} :
@@ -402,7 +459,8 @@ Next ==
 Spec == Init /\ [][Next]_vars
 
 \* C01 at model level
-Inv_C01 == PintClean(doc) => PromAccepts(doc)
+\* claimed for the Prometheus schema only: with the Thanos schema pint accepts partial_response_strategy by design
+Inv_C01 == (doc.schema = "prometheus" /\ PintClean(doc)) => PromAccepts(doc)
 
 \* the same with the documents of the gaps declared open (F9a-d) left out: must hold without exception
 KnownGap(d) ==
@@ -411,6 +469,7 @@ KnownGap(d) ==
   \/ "F9c" \in Gaps /\ (d.gitem = "emptyMap" \/ (d.gitem = "map" /\ ~Present(d.g.name) /\ ~Present(d.g.rules)))
   \/ "F9d" \in Gaps /\ d.top \in {"dupGroupsEmpty", "dupGroupsOther"}
   \/ "F9e" \in Gaps /\ (d.r.record = "nullWord" \/ d.r.alert = "nullWord" \/ d.r.expr = "nullWord")
+  \/ "F9g" \in Gaps /\ d.g.limit = "u64"
 Inv_C01_ModuloKnown == KnownGap(doc) \/ Inv_C01
 
 Inv_Count == n = Cardinality(Devs(doc))
